@@ -1,3 +1,4 @@
+import RactorModel.Lemmas.GenAdmission
 import RactorModel.Extracted
 import RactorModel.Lemmas.AdmissionCore
 import RactorModel.Lemmas.AdmissionLate
@@ -6,6 +7,7 @@ import RactorModel.Lemmas.AdmissionQueue
 import RactorModel.Lemmas.AdmissionOracle
 import RactorModel.Lemmas.AdmissionShut
 import RactorModel.Lemmas.Early
+import RactorModel.Lemmas.EarlyStep
 
 /-!
 # C07 — drain processes everything accepted and admits nothing afterwards
@@ -299,14 +301,13 @@ theorem drain_before_start_still_drains (ops : List Early.Op) (hu : Early.undist
   have hI := Early.uinv_fold ops ((Early.undisturbed_iff ops).mp hu) {} Early.uinv_init
   have hph := Early.polled_fold ops ok hpoll {}
   change Early.UInv (Early.run ops) at hI
-  change (Early.run ops).phase ≠ .unstarted at hph
-  cases hp : (Early.run ops).phase
-  · exact absurd hp hph
+  change Early.started (Early.run ops) at hph
+  rcases hph with hp | hp
   · have := (hI.ru hp).2.2.2; rw [hd] at this; exact absurd this (by simp)
   · have h3 := hI.st hp
     have h4 := hI.split
     rw [h3.1, List.append_nil] at h4
-    exact ⟨h4, rfl, h3.2.1⟩
+    exact ⟨h4, hp, h3.2.1⟩
 
 /-- … and whatever else happens (stops, kills, failing starts, any order): once a drain has
 returned, no later cast is accepted. -/
@@ -320,6 +321,318 @@ example :
     let s := Early.run [.cast, .cast, .drain, .cast, .poll true]
     s.handled = [0, 1] ∧ s.accepted = [0, 1] ∧ s.reason = some "T:Drained" ∧ s.startResult = some "ok" := by
   decide
+
+/-! ### the start of an actor racing with `drain()` at single-step granularity (`Model/EarlyStep.lean`)
+
+Start thread: check `Unstarted` → publish `Starting` → [link]ₜₗ → `pre_start` → [link] → mark running →
+`post_start` → publish `Running` → loop; any number of other threads issuing casts, three-step
+drains, stops and kills; EVERY interleaving (`sched : List Tid`), every configuration `c`
+(linked / thread-local / supervisor accepting or not / `pre_start` ok or err / code before or
+after fix ee38a9c). -/
+
+/-- While the actor lives nothing whose send returned Ok is lost: handled, then the messages still
+queued, are exactly the accepted ones, in order. -/
+theorem start_race_nothing_lost_while_alive (c : EarlyStep.Cfg) (progs : List (List EarlyStep.Req))
+    (sched : List EarlyStep.Tid) (hal : (EarlyStep.run c (EarlyStep.init progs) sched).sh.pc.alive = true) :
+    (EarlyStep.run c (EarlyStep.init progs) sched).sh.handled ++
+      EarlyStep.msgs (EarlyStep.run c (EarlyStep.init progs) sched).sh.queue =
+    (EarlyStep.run c (EarlyStep.init progs) sched).sh.accepted :=
+  (EarlyStep.inv_reach c progs sched).split hal
+
+/-- **Every send that returned Ok is handled before a "Drained" exit** — wherever the drains, casts,
+stops and kills fell relative to the steps of the start. -/
+theorem start_race_drained_exit_handled_everything (c : EarlyStep.Cfg) (progs : List (List EarlyStep.Req))
+    (sched : List EarlyStep.Tid)
+    (hx : (EarlyStep.run c (EarlyStep.init progs) sched).sh.pc = .exited .drained) :
+    (EarlyStep.run c (EarlyStep.init progs) sched).sh.handled =
+    (EarlyStep.run c (EarlyStep.init progs) sched).sh.accepted :=
+  (EarlyStep.inv_reach c progs sched).drained hx
+
+/-- `drain()` never makes `start` refuse the actor as already started (finding F8, all schedules):
+the status is still `Unstarted` whenever the start thread reads or overwrites it. -/
+theorem start_race_never_already_started (c : EarlyStep.Cfg) (progs : List (List EarlyStep.Req))
+    (sched : List EarlyStep.Tid) :
+    (EarlyStep.run c (EarlyStep.init progs) sched).sh.pc ≠ .failed .already :=
+  (EarlyStep.inv_reach c progs sched).noAlready
+
+/-- **A drain never fails a start** (the code after fix ee38a9c, finding F9): if no stop and no kill
+was requested, `pre_start` succeeds and the supervisor accepts, then — whatever drains and casts
+were interleaved with the start — the start has not failed, and if the actor has ended it ended
+with "Drained" having handled every accepted message. -/
+theorem start_race_only_drained_exit (c : EarlyStep.Cfg) (hf : c.fixed = true)
+    (progs : List (List EarlyStep.Req)) (sched : List EarlyStep.Tid)
+    (hu : EarlyStep.undisturbed c (EarlyStep.run c (EarlyStep.init progs) sched).sh = true)
+    (hd : (EarlyStep.run c (EarlyStep.init progs) sched).sh.pc.alive = false) :
+    (EarlyStep.run c (EarlyStep.init progs) sched).sh.pc = .exited .drained ∧
+    (EarlyStep.run c (EarlyStep.init progs) sched).sh.handled =
+      (EarlyStep.run c (EarlyStep.init progs) sched).sh.accepted := by
+  have hI := EarlyStep.inv_reach c progs sched
+  have hx := EarlyStep.undisturbed_terminal c _ hI hf hu hd
+  exact ⟨hx, hI.drained hx⟩
+
+/-- **A drain never leaves the actor running forever, wherever it fell in the start**: from every
+reachable state in which the marker has been emitted and nothing intervened, the actor's own task
+— no other thread has to move — ends within `measure` steps, with a "Drained" exit, having handled
+everything that was accepted. -/
+theorem start_race_drain_completes (c : EarlyStep.Cfg) (hf : c.fixed = true)
+    (progs : List (List EarlyStep.Req)) (sched : List EarlyStep.Tid)
+    (hm : (EarlyStep.run c (EarlyStep.init progs) sched).sh.markerSent = true)
+    (hu : EarlyStep.undisturbed c (EarlyStep.run c (EarlyStep.init progs) sched).sh = true) :
+    let s := (EarlyStep.run c (EarlyStep.init progs) sched).sh
+    let s' := EarlyStep.startN c (EarlyStep.measure s) s
+    s'.pc = .exited .drained ∧ s'.handled = s.accepted := by
+  intro s s'
+  have hI := EarlyStep.inv_reach c progs sched
+  have hI' := EarlyStep.inv_startN c (EarlyStep.measure s) s hI
+  have hend := EarlyStep.startN_ends c (EarlyStep.measure s) s hI hm (Nat.le_refl _)
+  have hfr := EarlyStep.startN_frame c (EarlyStep.measure s) s
+  have hu' : EarlyStep.undisturbed c s' = true := by
+    simp only [EarlyStep.undisturbed] at hu ⊢
+    rw [show s'.stopReq = s.stopReq from hfr.2.1, show s'.killReq = s.killReq from hfr.2.2.1]
+    exact hu
+  have hx := EarlyStep.undisturbed_terminal c s' hI' hf hu' hend
+  exact ⟨hx, (hI'.drained hx).trans hfr.2.2.2⟩
+
+/-- **… under ANY fair continuation.** Once the marker has been emitted, every continuation `sched₂`
+of the schedule that gives the actor's own task at least `measure` steps — with the other threads'
+steps (more casts, drains, stops, kills) interleaved in any way — ends the actor's task; and if
+at that point still nothing has intervened, it ended "Drained" having handled every accepted
+message. (The fairness assumption is only "the actor's task is polled `measure` more times".) -/
+theorem start_race_drain_completes_fair (c : EarlyStep.Cfg) (progs : List (List EarlyStep.Req))
+    (sched₁ sched₂ : List EarlyStep.Tid)
+    (hm : (EarlyStep.run c (EarlyStep.init progs) sched₁).sh.markerSent = true)
+    (hfair : EarlyStep.measure (EarlyStep.run c (EarlyStep.init progs) sched₁).sh ≤ sched₂.count .start) :
+    (EarlyStep.run c (EarlyStep.init progs) (sched₁ ++ sched₂)).sh.pc.alive = false ∧
+    (c.fixed = true → EarlyStep.undisturbed c (EarlyStep.run c (EarlyStep.init progs) (sched₁ ++ sched₂)).sh = true →
+      (EarlyStep.run c (EarlyStep.init progs) (sched₁ ++ sched₂)).sh.pc = .exited .drained ∧
+      (EarlyStep.run c (EarlyStep.init progs) (sched₁ ++ sched₂)).sh.handled =
+        (EarlyStep.run c (EarlyStep.init progs) (sched₁ ++ sched₂)).sh.accepted) := by
+  have hI := EarlyStep.inv_reach c progs sched₁
+  have hend : (EarlyStep.run c (EarlyStep.init progs) (sched₁ ++ sched₂)).sh.pc.alive = false := by
+    rw [EarlyStep.run_append]
+    exact EarlyStep.sealed_run_ends c sched₂ _ hI (hI.sentClosed hm) hm hfair
+  exact ⟨hend, fun hf hu => start_race_only_drained_exit c hf progs (sched₁ ++ sched₂) hu hend⟩
+
+/-- Once a drain's first step has closed admission no send is accepted any more, whatever the
+start thread and the other threads do afterwards. -/
+theorem start_race_nothing_accepted_after_close (c : EarlyStep.Cfg) (progs : List (List EarlyStep.Req))
+    (sched₁ sched₂ : List EarlyStep.Tid)
+    (hc : (EarlyStep.run c (EarlyStep.init progs) sched₁).sh.closed = true) :
+    (EarlyStep.run c (EarlyStep.init progs) (sched₁ ++ sched₂)).sh.accepted =
+    (EarlyStep.run c (EarlyStep.init progs) sched₁).sh.accepted := by
+  rw [EarlyStep.run_append]
+  exact (EarlyStep.closed_run c sched₂ _ hc).2
+
+/-- The witness of finding F9 in the model of the code BEFORE the fix (`fixed := false`, link gate
+`child >= Draining`): a linked Send actor, one thread `cast; drain` run while `pre_start` is
+suspended; nothing intervenes, yet the start fails at the link and the accepted cast is lost. -/
+theorem unfixed_link_gate_drops_accepted_casts :
+    let c : EarlyStep.Cfg := { fixed := false, linked := true }
+    let s := (EarlyStep.run c (EarlyStep.init [[.cast, .drain]])
+      [.start, .start, .t 0, .t 0, .t 0, .t 0, .start, .start]).sh
+    EarlyStep.undisturbed c s = true ∧ s.pc = .failed .nolink ∧ s.accepted = [0] ∧ s.handled = [] := by
+  decide
+
+/-- … the same schedule in the model of the fixed code: the link succeeds; the actor's task then
+handles the cast and ends "Drained" (non-vacuity of the theorems above: marker emitted, undisturbed). -/
+example :
+    let c : EarlyStep.Cfg := { fixed := true, linked := true }
+    let s := (EarlyStep.run c (EarlyStep.init [[.cast, .drain]])
+      [.start, .start, .t 0, .t 0, .t 0, .t 0, .start, .start]).sh
+    EarlyStep.undisturbed c s = true ∧ s.markerSent = true ∧ s.pc = .markRunning ∧ s.status = 4 ∧
+    (EarlyStep.startN c (EarlyStep.measure s) s).pc = .exited .drained ∧
+    (EarlyStep.startN c (EarlyStep.measure s) s).handled = [0] := by
+  decide
+
+/-- thread-local flavour, the drain's status step between `set_status(Starting)` and the early
+link: refused before the fix, accepted after. -/
+example :
+    (EarlyStep.run { fixed := false, linked := true, tl := true } (EarlyStep.init [[.drain]])
+      [.start, .start, .t 0, .t 0, .start]).sh.pc = .failed .nolink ∧
+    (EarlyStep.run { fixed := true, linked := true, tl := true } (EarlyStep.init [[.drain]])
+      [.start, .start, .t 0, .t 0, .start]).sh.pc = .preStart := by
+  decide
+
+/-- E-SRC: the gates `Model/EarlyStep.lean` runs with `Cfg.fixed = true` are the ones in the source —
+`drain()` lifts every status except `Unstarted` that is below `Stopping` to `Draining`; `start` (Send and
+thread-local) links through `try_link_starting` → `link_starting`, whose child bound is `Stopping`
+(the public `link()`: `Draining`); `link_below` refuses `child >= bound || supervisor >= Draining`.
+Reverting fix ee38a9c breaks this obligation (besides the oracle). -/
+theorem src_start_drain_gates :
+    Extracted.drainLiftGuard = "f != (ActorStatus::Unstarted as u8) && f < (ActorStatus::Stopping as u8)" ∧
+    Extracted.drainLiftsTo = "Draining" ∧
+    Extracted.sendStartLinkCall = "try_link_starting" ∧ Extracted.localStartLinkCall = "try_link_starting" ∧
+    Extracted.tryLinkStartingCalls = "link_starting" ∧ Extracted.linkStartingChildBound = "Stopping" ∧
+    Extracted.linkChildBound = "Draining" ∧ Extracted.linkBelowGate = true := by decide
+
+/-- the status constants of the model are the discriminants in the source -/
+theorem src_status_discriminants_start :
+    (Extracted.statusDiscriminants.lookup "Unstarted", Extracted.statusDiscriminants.lookup "Starting",
+      Extracted.statusDiscriminants.lookup "Running", Extracted.statusDiscriminants.lookup "Draining",
+      Extracted.statusDiscriminants.lookup "Stopping", Extracted.statusDiscriminants.lookup "Stopped") =
+    (some EarlyStep.stUnstarted, some EarlyStep.stStarting, some EarlyStep.stRunning,
+      some EarlyStep.stDraining, some EarlyStep.stStopping, some EarlyStep.stStopped) := by
+  decide
+
+
+/-! ### Translator tie (rs2lean): kernel-checked equivalence between the definitions that
+`extract/rs2lean.py` regenerates from the CURRENT Rust source on every run
+(`RactorModel/Generated/*.lean`) and the hand-written model functions the theorems above are
+about. A semantic change of the Rust function changes the generated text and these stop checking. -/
+
+section XlateTie
+open Generated.Admission GenAdmission
+
+/-- `try_admit_message`, one iteration on the word `enc w` (pcs `aLoad`/`aCas` of the model):
+closed ⇒ `None`; else exchange `w` for `w` with one more ticket. -/
+theorem generated_try_admit_eq_model (enq : Except MessagingErr Unit) (w : Admission.Word)
+    (h : w.count + 1 < 2 ^ 62) :
+    ActorProperties.try_admit_message enq (st w)
+      = if w.closed then .done none
+        else .cas (enc w) (enc { w with count := w.count + 1 }) (some ()) := by
+  have hc := closed_bit w (by omega)
+  unfold ActorProperties.try_admit_message
+  simp only [st, hc]
+  rcases w with ⟨c, m, n⟩
+  cases c
+  · have : Rust.wAdd 64 (enc ⟨false, m, n⟩) 1 = enc ⟨false, m, n + 1⟩ := by
+      unfold Rust.wAdd enc; cases m <;> simp at h ⊢ <;> omega
+    simp [this]
+  · simp
+
+/-- `close_message_admission` (pc `dClose`): `fetch_or(CLOSED)` sets `closed`. -/
+theorem generated_close_admission_eq_model (enq : Except MessagingErr Unit) (w : Admission.Word)
+    (h : w.count < 2 ^ 62) :
+    ActorProperties.close_message_admission enq (st w) = st { w with closed := true } := by
+  simp [ActorProperties.close_message_admission, st, or_closed w h]
+
+/-- `send_drain_marker`, one iteration (pcs `mLoad`/`mCas`/`mEnq`): the exchange is attempted
+exactly under `Admission.markerCond`, sets `marker`, and the value returned on success is the
+outcome of the enqueue with its error mapped to `SendErr(())`. -/
+theorem generated_send_drain_marker_eq_model (enq : Except MessagingErr Unit) (w : Admission.Word)
+    (h : w.count < 2 ^ 62) :
+    ActorProperties.send_drain_marker enq (st w)
+      = if Admission.markerCond w then
+          .cas (enc w) (enc { w with marker := true }) (enq.mapError fun _ => MessagingErr.SendErr ())
+        else .done (.ok ()) := by
+  unfold ActorProperties.send_drain_marker Admission.markerCond
+  simp only [st, closed_bit w h, marker_bit w h, count_bits w h]
+  rcases w with ⟨c, m, n⟩
+  cases c <;> cases m <;> simp
+  by_cases hn : n = 0
+  · subst hn
+    simp [enc, consts.2.1, Rust.bor]
+  · simp [hn]
+
+/-- `MessageAdmission::drop` (pc `rel`): one ticket fewer, and the marker program is entered
+iff the word seen was closed with exactly this ticket outstanding. -/
+theorem generated_ticket_release_eq_model (enq : Except MessagingErr Unit) (w : Admission.Word)
+    (h : w.count < 2 ^ 62) (hpos : 0 < w.count) :
+    MessageAdmission.drop enq (st w)
+      = (st { w with count := w.count - 1 }, w.closed && w.count == 1) := by
+  unfold MessageAdmission.drop
+  simp only [st, closed_bit w h, count_bits w h]
+  rcases w with ⟨c, m, n⟩
+  simp only at h hpos
+  have hlt : enc ⟨c, m, n⟩ < 2 ^ 64 := by unfold enc; cases c <;> cases m <;> simp <;> omega
+  have hge : 0 < enc ⟨c, m, n⟩ := by unfold enc; simp only; omega
+  have h1 : Rust.wSub 64 (enc ⟨c, m, n⟩) 1 = enc ⟨c, m, n⟩ - 1 := by unfold Rust.wSub; omega
+  have h2 : enc ⟨c, m, n⟩ - 1 = enc ⟨c, m, n - 1⟩ := by unfold enc; simp only; omega
+  rw [h1, h2]
+  cases c <;> cases hd : decide (n = 1) <;> simp_all
+
+/-- the closure `drain` passes to `status.fetch_update` (pc `dStatus`): for a started actor
+(`status ≠ Unstarted`) exactly the model's `if status < stStopping then stDraining`. -/
+theorem generated_drain_status_update_eq_model (enq : Except MessagingErr Unit) (status : Nat) (hs : status ≠ 0) :
+    (ActorProperties.drain_status_update enq status).getD status
+      = if status < Admission.stStopping then Admission.stDraining else status := by
+  unfold ActorProperties.drain_status_update
+  simp only [ActorStatus.toNat, Admission.stStopping, Admission.stDraining, ne_eq, hs, not_false_eq_true,
+    decide_true, Bool.true_and]
+  by_cases h : status < 5 <;> simp [h]
+
+/-- the status test at the head of `send_message_unchecked` (pc `sStatus`) -/
+theorem generated_send_status_check_eq_model (enq : Except MessagingErr Unit) (status : ActorStatus) :
+    ActorProperties.send_rejects_status enq status = decide (status.toNat ≥ Admission.stDraining) := by
+  cases status <;> rfl
+
+theorem generated_status_discriminants :
+    (ActorStatus.toNat .Draining, ActorStatus.toNat .Stopping, ActorStatus.toNat .Stopped)
+      = (Admission.stDraining, Admission.stStopping, Admission.stStopped) := by decide
+
+/-- the bit layout `GenAdmission.enc` assumes is the one of the three source constants -/
+theorem generated_admission_constants :
+    MESSAGE_ADMISSION_CLOSED = 2 ^ 63 ∧ DRAIN_MARKER_SENT = 2 ^ 62 ∧ MESSAGE_ADMISSION_COUNT_MASK = 2 ^ 62 - 1 :=
+  GenAdmission.consts
+
+/-! the hand-written small-step model performs, at the pcs named, exactly the generated word operations -/
+section
+open Admission
+
+/-- pc `aLoad` of the model takes exactly the branch the generated `try_admit_message` takes on
+the encoded word. -/
+theorem model_admit_load_follows_generated (enq : Except MessagingErr Unit) (s : Shared) (f : Frame)
+    (rest : List Frame) (hpc : f.pc = .aLoad) (h : s.word.count + 1 < 2 ^ 62) :
+    stepThread s (f :: rest) =
+      match ActorProperties.try_admit_message enq (st s.word) with
+      | .done _ => some (finish s f .sendErr rest)
+      | .cas _ _ _ => some (s, { f with pc := .aCas s.word } :: rest) := by
+  rw [generated_try_admit_eq_model enq s.word h]
+  unfold stepThread
+  simp only [hpc]
+  cases s.word.closed <;> rfl
+
+/-- pc `aCas seen`, exchange succeeding: the word the model installs is the `new` word of the
+generated iteration (through `enc`). -/
+theorem model_admit_cas_installs_generated (enq : Except MessagingErr Unit) (s : Shared) (f : Frame)
+    (rest : List Frame) (hpc : f.pc = .aCas s.word) (hopen : s.word.closed = false)
+    (h : s.word.count + 1 < 2 ^ 62) :
+    ∃ s' st', stepThread s (f :: rest) = some (s', st') ∧
+      ActorProperties.try_admit_message enq (st s.word) = .cas (enc s.word) (enc s'.word) (some ()) := by
+  refine ⟨{ s with word := { s.word with count := s.word.count + 1 } }, { f with pc := .box } :: rest, ?_, ?_⟩
+  · unfold stepThread
+    simp only [hpc, ↓reduceIte]
+  · rw [generated_try_admit_eq_model enq s.word h]
+    simp [hopen]
+
+/-- pc `dClose`: the word the model installs is the one `close_message_admission` computes. -/
+theorem model_close_installs_generated (enq : Except MessagingErr Unit) (s : Shared) (f : Frame)
+    (rest : List Frame) (hpc : f.pc = .dClose) (h : s.word.count < 2 ^ 62) :
+    ∃ s' st', stepThread s (f :: rest) = some (s', st') ∧
+      ActorProperties.close_message_admission enq (st s.word) = st s'.word := by
+  refine ⟨{ s with word := { s.word with closed := true } }, { f with pc := .dStatus } :: rest, ?_, ?_⟩
+  · unfold stepThread
+    simp only [hpc]
+  · exact generated_close_admission_eq_model enq s.word h
+
+/-- pc `mLoad`: the marker program goes on to its exchange exactly when the generated
+`send_drain_marker` iteration does. -/
+theorem model_marker_load_follows_generated (enq : Except MessagingErr Unit) (s : Shared) (f : Frame)
+    (rest : List Frame) (ret : Option Res) (hpc : f.pc = .mLoad ret) (h : s.word.count < 2 ^ 62) :
+    stepThread s (f :: rest) =
+      match ActorProperties.send_drain_marker enq (st s.word) with
+      | .done _ => some (finish s f (mRet ret) rest)
+      | .cas _ _ _ => some (s, { f with pc := .mCas s.word ret } :: rest) := by
+  rw [generated_send_drain_marker_eq_model enq s.word h]
+  unfold stepThread
+  simp only [hpc]
+  cases markerCond s.word <;> rfl
+
+/-- pc `rel r` (ticket release): the word the model installs and its decision to enter the
+marker program are the generated `MessageAdmission::drop`'s. -/
+theorem model_release_follows_generated (enq : Except MessagingErr Unit) (s : Shared) (f : Frame)
+    (rest : List Frame) (r : Res) (hpc : f.pc = .rel r) (h : s.word.count < 2 ^ 62) (hpos : 0 < s.word.count) :
+    (MessageAdmission.drop enq (st s.word)).1 = st { s.word with count := s.word.count - 1 } ∧
+    stepThread s (f :: rest) =
+      (let s' := { s with word := { s.word with count := s.word.count - 1 } }
+       if (MessageAdmission.drop enq (st s.word)).2 then some (s', { f with pc := .mLoad (some r) } :: rest)
+       else some (finish s' f r rest)) := by
+  rw [generated_ticket_release_eq_model enq s.word h hpos]
+  refine ⟨rfl, ?_⟩
+  unfold stepThread
+  simp only [hpc]
+end
+end XlateTie
 
 end C07
 
@@ -341,3 +654,27 @@ end C07
 #print axioms C07.src_drain_steps
 #print axioms C07.drain_before_start_still_drains
 #print axioms C07.no_send_accepted_after_early_drain
+#print axioms C07.start_race_nothing_lost_while_alive
+#print axioms C07.start_race_drained_exit_handled_everything
+#print axioms C07.start_race_never_already_started
+#print axioms C07.start_race_only_drained_exit
+#print axioms C07.start_race_drain_completes
+#print axioms C07.start_race_drain_completes_fair
+#print axioms C07.start_race_nothing_accepted_after_close
+#print axioms C07.unfixed_link_gate_drops_accepted_casts
+#print axioms C07.src_start_drain_gates
+#print axioms C07.src_status_discriminants_start
+-- rs2lean tie
+#print axioms C07.generated_try_admit_eq_model
+#print axioms C07.generated_close_admission_eq_model
+#print axioms C07.generated_send_drain_marker_eq_model
+#print axioms C07.generated_ticket_release_eq_model
+#print axioms C07.generated_drain_status_update_eq_model
+#print axioms C07.generated_send_status_check_eq_model
+#print axioms C07.generated_status_discriminants
+#print axioms C07.generated_admission_constants
+#print axioms C07.model_admit_load_follows_generated
+#print axioms C07.model_admit_cas_installs_generated
+#print axioms C07.model_close_installs_generated
+#print axioms C07.model_marker_load_follows_generated
+#print axioms C07.model_release_follows_generated
